@@ -16,7 +16,7 @@ def worker(k, q, lock):
     sh("git -C /repo worktree remove --force %s; rm -rf %s; git -C /repo worktree add -q --detach %s HEAD" % (wt, wt, wt))
     work = "/tmp/pm/work%d" % k; build = "/tmp/pm/build%d" % k
     os.makedirs(work, exist_ok=True); os.makedirs(build, exist_ok=True)
-    env = dict(ENV, VERIF_REPO=wt, VERIF_WORK=work, VERIF_BUILD=build, VERIF_SKIP_COQ="1", VERIF_SRCGEN="1", VERIF_SHRINK_S="8")
+    env = dict(ENV, VERIF_REPO=wt, VERIF_WORK=work, VERIF_BUILD=build, VERIF_SKIP_COQ="1", VERIF_SRCGEN=os.environ.get("PM_SRCGEN", "1"), VERIF_SHRINK_S="8")
     while True:
         try: spec = q.get_nowait()
         except queue.Empty: break
